@@ -23,7 +23,7 @@ const (
 	emptyCodeHashHex = "c5d2460186f7233c927e7db2dcc703c0e500b653ca82273b7bfad8045d85a470"
 	// gateStorageZeros enables storage values with leading zero bytes (proposed/C11-storage-value-leading-zeros.md:
 	// they are trimmed on the way to the trie and come back shorter from a cold cache)
-	gateStorageZeros = false
+	gateStorageZeros = true
 )
 
 // execSobj: val is an Account value (no storage, no code); answer = the bytes the state trie holds for the account
@@ -183,9 +183,9 @@ func genStateObj(g *hx.Gen, wd *world) {
 	}
 }
 
-// gateMapKeyOrder enables Account encodings whose token map entries are out of order or repeat a key
-// (proposed/C11-map-decoder-key-order.md: the decoder accepts them, so two byte strings decode to the same account)
-const gateMapKeyOrder = false
+// gateMapKeyOrder enables Account encodings whose token map entries are out of order or repeat a key (the decoder accepts
+// them: an observation, see proposed/C11-map-decoder-key-order.md; only what the property demands is monitored)
+const gateMapKeyOrder = true
 
 func genMapKeyOrder(g *hx.Gen, wd *world) {
 	r := wd.byName["Account"]
@@ -226,8 +226,25 @@ func genMapKeyOrder(g *hx.Gen, wd *world) {
 		p = append(append(p, 0xA0), make([]byte, 32)...)
 		p = append(p, 0x80)
 		b := append([]byte{0xF8, byte(len(p))}, p...)
-		ops := append([]string{hx.CaseOp("fuzz", "noncanon")}, r.Pream...)
+		// the decoder accepts these (observation, not a property violation: the property speaks of encodings of values);
+		// what it demands is checked: no crash, bounded allocation (dec monitors), and decode -> value -> re-encode is a
+		// fixed point: the re-encoding decodes to the same value and re-encodes to itself
+		ops := append([]string{hx.CaseOp("fuzz", "mapkeys")}, r.Pream...)
 		ops = append(ops, decOp(r, b, false, false))
-		g.Case("map keys out of order / repeated", ops, true)
+		cr := g.Case("map keys out of order / repeated", ops, true)
+		a := cr.Impl[len(cr.Impl)-1]
+		if strings.HasPrefix(a, "ok ") {
+			at := hx.Tokens(a)
+			v1, _ := hx.Arg(at, "v")
+			b2, _ := hx.Arg(at, "b2")
+			if b2 != "err" && b2 != "panic" {
+				ops2 := append([]string{hx.CaseOp("fuzz", "mapkeys")}, r.Pream...)
+				ops2 = append(ops2, decOp(r, hx.UnHex(b2), false, false)+" expectv="+v1)
+				g.Case("canonical re-encoding of an accepted map", ops2, true)
+				g.Count("mapkeys:accepted")
+			}
+		} else {
+			g.Count("mapkeys:rejected")
+		}
 	}
 }
